@@ -65,6 +65,12 @@ def leaf_script(rng, big=False):
     r = rng.random()
     if big and r < 0.1:
         return [G.rbytes(rng, rng.choice([252, 253, 65535, 65536, 70000])).hex(), 'OP_DROP', 'OP_1']
+    if big and r < 0.3:
+        # total encoded script length exactly 251..254 / 65534..65537
+        total = rng.choice([251, 252, 253, 254, 65534, 65535, 65536, 65537])
+        body = total - 2
+        ln = body - (2 if body - 2 <= 255 else 3 if body - 3 <= 65535 else 5)
+        return [G.rbytes(rng, ln).hex(), 'OP_DROP', 'OP_1']
     if r < 0.6: return [G.rbytes(rng, 32).hex(), 'OP_CHECKSIG']
     if r < 0.8: return ['OP_1']
     return [rng.randrange(1, 1000), 'OP_CHECKSEQUENCEVERIFY', 'OP_DROP', G.rbytes(rng, 32).hex(), 'OP_CHECKSIG']
